@@ -259,6 +259,17 @@ func (r *Report) Finish() int {
 		"distinct_nontrivial": len(distinctInstances(r.Obls)),
 		"rule":                "one evaluation = one obligation (rule instance at a resolved construct); distinct = distinct rule|instance keys",
 	}
+	if r.Assumptions == nil {
+		r.Assumptions = []string{}
+	}
+	if kf == nil {
+		kf = []string{}
+	}
+	if r.Advisory == nil {
+		r.Advisory = []string{}
+	}
+	cov["known_findings"] = kf
+	cov["advisory"] = r.Advisory
 	ev := map[string]interface{}{
 		"property_id": r.Prop, "tier": r.Tier, "seed": seed, "level": "other",
 		"coverage": cov, "assumptions": r.Assumptions,
